@@ -340,7 +340,7 @@ func genC08(rt *rapid.T) c08Case {
 	c.Cuts = genCuts(rt, total)
 	if rapid.IntRange(0, 3).Draw(rt, "withprev") == 0 {
 		for i, n := 0, rapid.IntRange(1, 2).Draw(rt, "nprev"); i < n; i++ {
-			c.Prev = append(c.Prev, world.PrevSession{Hold: pick[uint16](rt, "prevhold", 0, 3, 90), End: pick(rt, "prevend", "fin", "cease", "cease+junk", "cease+junk")})
+			c.Prev = append(c.Prev, world.PrevSession{Hold: pick[uint16](rt, "prevhold", 0, 3, 90), End: pick(rt, "prevend", "fin", "cease", "cease+junk", "cease+junk"), In: rapid.IntRange(0, 2).Draw(rt, "previn") == 0})
 		}
 	}
 	return c
@@ -800,7 +800,7 @@ func c08BusyProp(t *testing.T, r *hx.Run, sub string) func(c c08Busy) hx.Verdict
 	return func(c c08Busy) hx.Verdict {
 		r.SetCurrent(sub, c)
 		v := hx.Verdict{Class: fmt.Sprintf("writers=%d/%s", c.Writers, c.Fault)}
-		if c.Writers >= 1 && c.Fault == "type" {
+		if c.Writers >= 1 && (c.Fault == "type" || c.Fault == "unexpected") {
 			v.NT = fmt.Sprintf("%+v", c)
 		}
 		p := basePeer(c.Out)
@@ -838,6 +838,10 @@ func c08BusyProp(t *testing.T, r *hx.Run, sub string) func(c c08Busy) hx.Verdict
 			hdr := wire.Keepalive()
 			want := wire.Notif{Code: 1}
 			switch c.Fault {
+			case "unexpected":
+				// (C09) a well-formed message that the state does not allow: an OPEN in Established
+				hdr = world.RemoteOpen(p, conn, 90, 0x0a000002).Frame()
+				want = wire.Notif{Code: 5, Sub: 3, Data: []byte{wire.TypeOpen}}
 			case "marker":
 				hdr[9] = 0
 				want.Sub = 1
@@ -875,7 +879,7 @@ func c08BusyProp(t *testing.T, r *hx.Run, sub string) func(c c08Busy) hx.Verdict
 				return
 			}
 			n := notifs[0]
-			if n.Code != want.Code || n.Sub != want.Sub || (c.Fault == "type" && !bytes.Equal(n.Data, want.Data)) {
+			if n.Code != want.Code || n.Sub != want.Sub || ((c.Fault == "type" || c.Fault == "unexpected") && !bytes.Equal(n.Data, want.Data)) {
 				fail("wrong-notification", "%s fault while %d goroutines write: answered with %v, want %v", c.Fault, c.Writers, n, want)
 				return
 			}
